@@ -64,6 +64,9 @@ MUTANTS = {
         (MC, '    # the row is appended to the results file by the parent process (see main), which is the only writer of that file\n    return result_s\n',
          "    with open(output_file, 'a') as f:\n        half = len(result_s) // 2\n        f.write(result_s[:half])\n        f.flush()\n        f.write(result_s[half:])\n    return ''\n")],
         'concurrent appends in two syscalls'),
+    'thread_pool_instead_of_process_pool': ('C14', {'row_not_reproducible', 'row_malformed', 'failure_leak'}, [
+        (MC, 'concurrent.futures.ProcessPoolExecutor(initializer=np.random.seed)', 'concurrent.futures.ThreadPoolExecutor()')],
+        'threads share cwd and sys.argv, which every run rewrites'),
     'revert_F1_no_finally': ('C08', {'ambient_cwd', 'ambient_argv'}, 'git:33bdf98', 'client leaves cwd/argv dirty after failure'),
     'revert_F2_cache_by_path': ('C08', {'stale_result'}, 'git:34d846b', 'stale cached result after rewrite'),
     'restore_only_on_exception_subclass': ('C08', {'ambient_cwd', 'ambient_argv'}, [
